@@ -227,6 +227,9 @@ def plan(tier, seed):
             cur, acc = [], 0
     if cur:
         items.append({"kind": "bfs", "configs": cur})
+    for k in BOUNDS[tier]["k"][:3]:
+        for samples in ([[2, 0], [2, 0]], [[3, 0], [1, 0], [2, 0]], [[1, 0], [2, 1]]):
+            items.append({"kind": "held", "case": {"variant": "held", "k": k, "samples": samples, "layout": "interleaved"}})
     ms = multi_sample_cases(tier)
     for i in range(0, len(ms), 60):
         items.append({"kind": "multi", "cases": ms[i:i + 60]})
@@ -282,6 +285,14 @@ def ask(info, k, batch, scores_by_name, col, policy=None):
         holder.add_score(info.id_of[name], sc)
     rec = _Recorder(policy if policy is not None else KPerSamplePlatePolicy(k))
     col.evaluations += 1
+    # a caller's work list: it took screen.plates earlier and has been popping the plates it dealt with.  What the caller does
+    # to the list it was handed is its own business and must not change what the next selection sees.
+    try:
+        handed = info.screen.plates
+        if isinstance(handed, list):
+            del handed[:]
+    except Exception:  # noqa: BLE001
+        pass
     got = select_next_plate(
         scores=holder,
         screen=info.screen,
@@ -634,11 +645,56 @@ def run_multi(case, col):
                   {"multi": case})
 
 
+def run_held_plates(case, col):
+    """The policy asked directly with Plate objects the caller keeps: ask -> merge a plate of ANOTHER sample into one of them
+    (Plate.merge, in place) -> ask again with the same objects.  The second call sees a plate with two samples and must refuse."""
+    k = int(case["k"])
+    info = _Info(make_screen(build_rows(case)))
+    plates = {str(p.plate_name): p for p in info.screen.plates if not p.is_observed}
+    names = sorted(plates)
+    col.evaluations += 1
+    col.states += 1
+    col.transitions += 3
+    pol = KPerSamplePlatePolicy(k)
+    try:
+        first = pol.filter_eligible_plates(batch_plates=[], unobserved_plates=[plates[n] for n in names], rng=np.random.default_rng(0))
+    except Exception as exc:  # noqa: BLE001
+        if not exception_origin_in_repo(exc):
+            raise
+        col.violation("C16|raised|single-sample-plates", f"k={k}: the policy raised on one-sample plates: {short_exc(exc)}", {"held": case})
+        return
+    by_sample = {}
+    for n in names:
+        by_sample.setdefault(info.samples_of[n][0], []).append(n)
+    samples = sorted(by_sample)
+    if len(samples) < 2:
+        return
+    a, b = by_sample[samples[0]][0], by_sample[samples[1]][0]
+    plates[a].merge(plates[b])  # plate a now holds wells of two samples; plate b's name is gone from the screen
+    rest = [plates[n] for n in names if n != b]
+    for where, batch, remaining in (("remaining", [], rest), ("batch", [plates[a]], [p for p in rest if p is not plates[a]])):
+        try:
+            allowed = pol.filter_eligible_plates(batch_plates=batch, unobserved_plates=remaining, rng=np.random.default_rng(0))
+        except Exception as exc:  # noqa: BLE001
+            if not exception_origin_in_repo(exc):
+                raise
+            col.refused += 1
+            col.outcome("held-plates", where, "refused")
+            col.nontriv("held-plates", k, case["samples"], where)
+            continue
+        col.outcome("held-plates", where, "answered")
+        col.violation(f"C16|multi-sample|not-refused|{where}|after-merge",
+                      f"k={k}: plate {a} absorbed plate {b} of another sample (Plate.merge) after the policy had been asked once; asked again with the same "
+                      f"Plate objects ({where}) the policy answered {[_name_of(p) for p in allowed]} instead of refusing", {"held": case})
+
+
 # ------------------------------------------------------------------ contract
 def run_item(item, col, tier):
     if item["kind"] == "bfs":
         for cfg in item["configs"]:
             run_config(cfg, col)
+    elif item["kind"] == "held":
+        run_held_plates(item["case"], col)
     else:
         for case in item["cases"]:
             run_multi(case, col)
@@ -646,6 +702,9 @@ def run_item(item, col, tier):
 
 def replay(case, col):
     """Re-execute one recorded history step by step through the real transitions (no BFS) and judge its end state."""
+    if "held" in case:
+        run_held_plates(case["held"], col)
+        return
     if "multi" in case:
         run_multi(case["multi"], col)
         return
